@@ -163,6 +163,13 @@ def generate_info_cases(drv, res, rng, tier):
             size = rng.choice([28, 29, 44, 28 + 4096, rng.randrange(28, 300)])
             blob = bytes(rng.randrange(256) for _ in range(size))
             cek = rng.choice([b"", bytes(rng.randrange(256) for _ in range(40))])
+            if i % 3 == 1:
+                # the blob and the wrapped key are binary: bytes that text handling would strip or translate at either end (C06-p)
+                edge = rng.choice([b"\n", b"\r", b"\r\n", b" ", b"\t", b"\x00", b"\x1a", b"\n\n", b"\xef\xbb\xbf"])
+                blob = (edge + blob[len(edge):]) if rng.random() < 0.35 else (blob[:len(blob) - len(edge)] + edge)
+                if cek and rng.random() < 0.5:
+                    cek = cek[:-len(edge)] + edge
+                res.count("generate-info:text-sensitive-edge-bytes")
             key_id = rng.choice(KEY_IDS)
             kw = rng.choice(["direct", "aes-kw-256"])
             bf, kf = os.path.join(d, "blob.bin"), os.path.join(d, "cek.bin")
